@@ -306,6 +306,10 @@ def refract(n, nprime, S, r):
         Sprime, a length 3 vector containing the exitant direction cosines
 
     """
+    # r may be a surface normal of any length (raytrace passes the gradient of the
+    # sag, which is what the intersection needs); Snell's law in vector form
+    # requires the unit normal
+    r = r / np.sqrt(_multi_dot(r, r))[:, np.newaxis]
     mu = n/nprime
     musq = mu * mu
     cosI = _multi_dot(r, S)
